@@ -160,9 +160,13 @@ pub fn model(c: &UpCase) -> Vec<(Option<ExpUptime>, bool, &'static str)> {
 }
 
 pub fn build_frames(c: &UpCase) -> Vec<Vec<u8>> {
+    build_frames_at(c, [10, 1, 1, 1])
+}
+/// `a4`: IPv4 address of endpoint A (IPv4 cases only)
+pub fn build_frames_at(c: &UpCase, a4: [u8; 4]) -> Vec<Vec<u8>> {
     let (ipa, ipb) = if c.v4 {
-        let a = Ip4 { src: [10, 1, 1, 1], dst: [10, 2, 2, 2], ..Ip4::default() };
-        let b = Ip4 { src: [10, 2, 2, 2], dst: [10, 1, 1, 1], ..Ip4::default() };
+        let a = Ip4 { src: a4, dst: [10, 2, 2, 2], ..Ip4::default() };
+        let b = Ip4 { src: [10, 2, 2, 2], dst: a4, ..Ip4::default() };
         (Ip::V4(a), Ip::V4(b))
     } else {
         let a = Ip6::default();
@@ -358,7 +362,161 @@ pub fn run(ctx: &Ctx) {
     );
 }
 
-pub fn replay(_ctx: &Ctx, input: &serde_json::Value) -> Result<(), Fail> {
+// ---------------------------------------------------------------------------------------------
+// many endpoints through parallel mode as a user sets it up (with_config + init_pool + worker_pool().dispatch)
+// ---------------------------------------------------------------------------------------------
+#[derive(Clone, Debug, Serialize, Deserialize, Hash)]
+pub struct ManyCase {
+    /// per endpoint: (tick rate in milli-Hz, interval ms between its segments, 0 = two steady segments / 1 = a wild segment in between (marks the endpoint bad) / 2 = port heuristic instead of SYN)
+    pub ends: Vec<(u32, u16, u8)>,
+    pub workers: u8,
+    pub queue: u8,
+    pub batch: u8,
+}
+
+fn many_endpoint(i: usize, e: &(u32, u16, u8)) -> (UpCase, [u8; 4]) {
+    let (rate, interval, mode) = (e.0.max(1) as u64, e.1.max(30) as u64, e.2 % 3);
+    let base = ((i as u32) + 1) << 22;
+    let t0 = 1_000_000 + i as u64;
+    let ticks = |ms: u64| ((rate as u128 * ms as u128 + 500_000) / 1_000_000) as u32;
+    let first = if mode == 2 { fr::ACK } else { fr::SYN };
+    let mut segs = vec![Seg { from_a: true, flags: first, tsval: base, at: t0 }];
+    if mode == 1 {
+        // 80 kHz for 30 ms: outside the range, the endpoint is marked bad and must stay silent afterwards
+        segs.push(Seg { from_a: true, flags: fr::ACK, tsval: base.wrapping_add(2400), at: t0 + 30 });
+    }
+    segs.push(Seg { from_a: true, flags: fr::ACK, tsval: base.wrapping_add(ticks(interval)).wrapping_add(if mode == 1 { 1 } else { 0 }), at: t0 + interval });
+    (UpCase { v4: true, a_port: 40000 + i as u16, b_port: 443, segs }, [10, 1 + (i / 200) as u8, (i % 200) as u8, 9])
+}
+
+pub fn check_many(c: &ManyCase, st: &mut Stats) -> Result<(), Fail> {
+    use std::sync::atomic::{AtomicU64, Ordering};
+    use std::sync::Arc;
+    let ends: Vec<(UpCase, [u8; 4])> = c.ends.iter().enumerate().map(|(i, e)| many_endpoint(i, e)).collect();
+    // round by round: every endpoint's first segment, then every second one, ... (what stresses a tracker that is too small)
+    let mut frames: Vec<Vec<u8>> = vec![];
+    let mut clock: HashMap<u32, u64> = HashMap::new();
+    let per: Vec<Vec<Vec<u8>>> = ends.iter().map(|(u, a)| build_frames_at(u, *a)).collect();
+    for round in 0..3 {
+        for (i, (u, _)) in ends.iter().enumerate() {
+            if let Some(sg) = u.segs.get(round) {
+                frames.push(per[i][round].clone());
+                clock.insert(sg.tsval, sg.at);
+            }
+        }
+    }
+    let workers = 1 + (c.workers % 4) as usize;
+    let queue = 2 + (c.queue % 5) as usize;
+    let batch = 1 + (c.batch % 16) as usize;
+    let expected: Vec<Vec<(Option<ExpUptime>, bool, &'static str)>> = ends.iter().map(|(u, _)| model(u)).collect();
+    if ends.len() > queue * 2 && expected.iter().any(|e| e.iter().any(|x| x.0.is_some())) {
+        st.nontrivial(c);
+    }
+    let _guard = crate::pool::POOL_LOCK.lock().unwrap_or_else(|e| e.into_inner());
+    huginn_net_tcp::verif_hooks::set_global_clock_table(Some(clock));
+    let started = Arc::new(AtomicU64::new(0));
+    let s2 = started.clone();
+    huginn_net_tcp::verif_hooks::set_sched_hook(Some(Arc::new(move |site: &'static str, _p: &[u8]| {
+        if site == "worker_packet" {
+            s2.fetch_add(1, Ordering::SeqCst);
+        }
+    })));
+    let run = || -> Result<Option<Vec<huginn_net_tcp::TcpAnalysisResult>>, Fail> {
+        let (tx, rx) = std::sync::mpsc::channel();
+        // capacity 1000 endpoints per worker, a queue of 2..6 packets: the two numbers a set-up must not confuse
+        let mut a = huginn_net_tcp::HuginnNetTcp::with_config(None, 1000, workers, queue, batch, 5).map_err(|e| fail!("parallel-mode:setup", "{e}"))?;
+        a.init_pool(tx.clone()).map_err(|e| fail!("parallel-mode:setup", "{e}"))?;
+        let pool = a.worker_pool().ok_or_else(|| fail!("parallel-mode:setup", "no worker pool after init_pool"))?;
+        for (n, f) in frames.iter().enumerate() {
+            if pool.dispatch(f.clone()) != huginn_net_tcp::DispatchResult::Queued {
+                return Err(fail!("parallel-mode:dropped-although-queue-empty", "frame {n}: every earlier frame had been taken from its queue"));
+            }
+            // paced: wait until a worker has taken the frame, so that the small queue never overflows
+            let end = std::time::Instant::now() + std::time::Duration::from_secs(10);
+            while started.load(Ordering::SeqCst) < n as u64 + 1 {
+                if std::time::Instant::now() > end {
+                    return Ok(None);
+                }
+                std::thread::yield_now();
+            }
+        }
+        pool.shutdown();
+        drop(pool);
+        drop(a);
+        drop(tx);
+        let end = std::time::Instant::now() + std::time::Duration::from_secs(20);
+        let mut out = vec![];
+        loop {
+            match rx.recv_timeout(std::time::Duration::from_millis(200)) {
+                Ok(v) => out.push(v),
+                Err(std::sync::mpsc::RecvTimeoutError::Disconnected) => return Ok(Some(out)),
+                Err(std::sync::mpsc::RecvTimeoutError::Timeout) => {
+                    crate::engine::watchdog_touch();
+                    if std::time::Instant::now() > end {
+                        return Ok(None);
+                    }
+                }
+            }
+        }
+    };
+    let got = run();
+    huginn_net_tcp::verif_hooks::set_sched_hook(None);
+    huginn_net_tcp::verif_hooks::set_global_clock_table(None);
+    drop(_guard);
+    let got = match got? {
+        Some(g) => g,
+        None => {
+            st.class("pool-did-not-finish(inconclusive)");
+            st.discards += 1;
+            return Ok(());
+        }
+    };
+    // estimates per endpoint, in delivery order (one endpoint = one source address = one worker: order is kept)
+    let mut by_port: HashMap<u16, Vec<huginn_net_tcp::output::UptimeOutput>> = HashMap::new();
+    for r in got {
+        for u in [r.client_uptime, r.server_uptime].into_iter().flatten() {
+            by_port.entry(u.source.port).or_default().push(u);
+        }
+    }
+    for (i, (u, _)) in ends.iter().enumerate() {
+        let exp: Vec<&(Option<ExpUptime>, bool, &'static str)> = expected[i].iter().filter(|e| e.0.is_some()).collect();
+        let got = by_port.remove(&u.a_port).unwrap_or_default();
+        if got.len() < exp.len() {
+            return Err(fail!("parallel-mode:estimate-missing", "endpoint {i} of {} (workers {workers}, queue {queue}, capacity 1000): expected {:?}, got {} estimates", ends.len(), exp.iter().map(|e| e.0.clone()).collect::<Vec<_>>(), got.len()));
+        }
+        if got.len() > exp.len() {
+            return Err(fail!("parallel-mode:reported-although-withheld-expected", "endpoint {i} of {} (workers {workers}, queue {queue}, capacity 1000): model {:?}, got {:?}", ends.len(), expected[i].iter().map(|e| e.2).collect::<Vec<_>>(), got));
+        }
+        for (e, g) in exp.iter().zip(got.iter()) {
+            let (gc, gs) = if matches!(g.role, huginn_net_tcp::output::UptimeRole::Client) { (Some(g), None) } else { (None, Some(g)) };
+            cmp(i, e, gc, gs, "parallel-mode")?;
+        }
+    }
+    Ok(())
+}
+
+pub fn run_many(ctx: &Ctx) {
+    ctx.shrink_iters.store(30, std::sync::atomic::Ordering::Relaxed);
+    let n = ctx.tier.pick(400, 8_000);
+    ctx.run_prop(
+        "many-endpoints-parallel-mode",
+        "8..120 timestamped endpoints (steady clocks 50..1500 Hz, intervals 100..600 ms; a third with a wild 80 kHz segment in between, which marks the endpoint bad; a third recognised by the port heuristic) sent round by round (all first segments, then all second ones ...) through the TCP analyzer's parallel mode as a user sets it up: with_config(capacity 1000, workers 1..4, queue 2..6, batch 1..16) + init_pool + worker_pool().dispatch, paced so that the small queue never overflows; oracle: the reference model per endpoint (estimate on the steady pair, nothing for a marked endpoint); non-trivial: more endpoints than twice the queue size and >= 1 estimate expected",
+        n,
+        || (proptest::collection::vec((prop_oneof![Just(100_000u32), Just(250_000u32), Just(1_000_000u32), Just(300_000u32), 50_000u32..1_500_000], 100u16..600, 0u8..3), 8..120), any::<u8>(), any::<u8>(), any::<u8>()).prop_map(|(ends, workers, queue, batch)| ManyCase { ends, workers, queue, batch }),
+        |c: &ManyCase, st: &mut Stats| {
+            st.sample(|| json!({"endpoints": c.ends.len(), "workers": 1 + c.workers % 4, "queue": 2 + c.queue % 5}));
+            check_many(c, st)
+        },
+    );
+    ctx.shrink_iters.store(1200, std::sync::atomic::Ordering::Relaxed);
+}
+
+pub fn replay(_ctx: &Ctx, sub: &str, input: &serde_json::Value) -> Result<(), Fail> {
+    if sub == "many-endpoints-parallel-mode" {
+        let c: ManyCase = serde_json::from_value(input["value"].clone()).map_err(|e| fail!("bad-replay", "{e}"))?;
+        let mut st = Stats::new();
+        return check_many(&c, &mut st);
+    }
     let v = if input.get("value").is_some() { input["value"].clone() } else { input.clone() };
     let c: UpCase = serde_json::from_value(v).map_err(|e| fail!("bad-replay", "{e}"))?;
     let mut st = Stats::new();
